@@ -42,7 +42,10 @@ def random_programs(rng, n, big):
         ops = [{"op": "a_open_bidi" if kind == "bidi" else "a_open_uni", "s": "s0", "split": split, "via": rng.choice(["opener", "conn"])}]
         nunits = rng.randint(1, 6) if not big else rng.randint(1, 3)
         total = 0
-        avail = 0      # bytes certainly handed to Quinn and not yet asked for by a p_read (a p_read of n takes at most n)
+        # a p_read blocks until at least one byte arrives, so it is generated only when a byte is CERTAINLY there:
+        #   certain  lower bound of the bytes the adapter has been made to hand to Quinn completely (units whose a_ready returned)
+        #   maxread  upper bound of the bytes the peer's reads so far may have taken
+        certain, maxread, handed = 0, 0, 0
         for u in range(nunits):
             if big:
                 ln = rng.choice([0, 1, 100, 4096, 65536, 262144]) if w != 64 else rng.choice([0, 1, 100, 4096, 16384])
@@ -54,17 +57,21 @@ def random_programs(rng, n, big):
                 x = rng.random()
                 if x < 0.4:
                     ops.append({"op": "a_send", "s": "s0", "len": rng.randint(0, 50), "tag": 100 + u, "kind": "data"})
+                    handed += 59                 # it is accepted if an earlier single poll happened to finish the unit
                 elif x < 0.7:
                     ops.append({"op": "a_ready_once", "s": "s0"})
                 elif x < 0.85:
                     ops.append({"op": "a_send_id", "s": "s0"})
-                elif avail >= 1:
+                elif certain - maxread >= 1:
                     n = rng.randint(1, 200)
                     ops.append({"op": "p_read", "s": "s0", "n": n})
-                    avail = max(0, avail - n)
-            ops.append({"op": "a_ready", "s": "s0", "step": rng.choice([1, 3, 17, 64, 500, 4096, 65536]) if ln < 20000 else rng.choice([4096, 65536])})
-            # after the wait everything of this unit is in Quinn's hands; the concurrent reads may have taken all of it
-            avail = 0 if w else avail + ln + 2
+                    maxread += n
+            step = rng.choice([1, 3, 17, 64, 500, 4096, 65536]) if ln < 20000 else rng.choice([4096, 65536])
+            ops.append({"op": "a_ready", "s": "s0", "step": step})
+            handed += ln + 9                     # upper bound of the unit's wire image
+            certain += ln + 2                    # lower bound
+            if w:
+                maxread = max(maxread, handed)   # with a small window the peer read concurrently during the wait: it may have taken everything
         ops.append({"op": "a_finish", "s": "s0"})
         ops.append({"op": "p_read_to_end", "s": "s0", "n": rng.choice([1, 7, 1000, 65536]) if total < 3000 else rng.choice([1000, 65536])})
         if kind == "bidi":
